@@ -1162,6 +1162,21 @@ class ModelMixin:
                     else:
                         out.append(Res(r.st, SV("str", self.fresh("joined", S))))
                 return out
+            elif src.k == "tuple" and recv.k == "str":
+                # sep.join((a, b, ...)): concatenation when every item is text, TypeError otherwise
+                items = [self.concretize(st, x) for x in src.x]
+                conds = [Val.is_StrV(box(x)) for x in items if x.k != "str"]
+                if any(x.k not in ("str", "val") for x in items):
+                    return [self.raise_new(st, "TypeError")]
+
+                def kj(s2):
+                    parts = []
+                    for i, x in enumerate(items):
+                        if i:
+                            parts.append(t)
+                        parts.append(x.t if x.k == "str" else Val.sv(x.t))
+                    return [Res(s2, SV("str", z3.Concat(*parts) if len(parts) > 1 else (parts[0] if parts else z3.StringVal(""))))]
+                return self.may_raise(st, z3.And(*conds) if conds else z3.BoolVal(True), "TypeError", kj)
             else:
                 raise Unsupported("join over " + src.k)
             return [Res(st, SV("str", str_join(t, sq)))]
